@@ -192,7 +192,17 @@ class ModBuilder:
         for s in ms["sigs"]:
             self.attrs[s[0]] = h.Signal(width=s[1])
         for b in ms.get("buns", []):
-            self.attrs[b[0]] = h.BundleInstance(of=build_bundle(self.design, b[1], built))
+            how = b[2] if len(b) > 2 else None
+            if how and how.startswith("copyof:"):  # created with `n * B()` / copy()
+                import copy as _copy
+
+                self.attrs[b[0]] = _copy.copy(self.attrs[how.split(":")[1]])
+            elif how and how.startswith("flippedof:"):  # created with h.flipped(existing instance)
+                self.attrs[b[0]] = h.flipped(self.attrs[how.split(":")[1]])
+            elif how == "mult":  # one element of `2 * B()`
+                self.attrs[b[0]] = (2 * h.BundleInstance(of=build_bundle(self.design, b[1], built)))[1]
+            else:
+                self.attrs[b[0]] = h.BundleInstance(of=build_bundle(self.design, b[1], built))
         for i in ms["insts"]:
             inst = self.make_inst(i)
             self.insts[i["name"]] = inst
